@@ -148,6 +148,11 @@ def leanchecker(ctx, module):
 
 def build_harness(ctx, race=False):
     shutil.copy(os.path.join(REPO, "go.sum"), os.path.join(HARNESS, "go.sum"))
+    gomod = os.path.join(HARNESS, "go.mod")
+    txt = open(gomod).read()
+    want = re.sub(r"(replace github.com/specterops/dawgs => )\S+", lambda m: m.group(1) + REPO, txt)
+    if want != txt:   # VERIF_REPO points at a scratch worktree (mutation testing); default is /repo
+        open(gomod, "w").write(want)
     out_bin = HARNESS_BIN + ("-race" if race else "")
     cmd = ["go", "build", "-tags", "verif"] + (["-race"] if race else []) + ["-o", out_bin, "."]
     try:
